@@ -11,6 +11,7 @@ import (
 	"fmt"
 	"sort"
 	"strings"
+	"sync"
 
 	"github.com/c4pt0r/kvql"
 )
@@ -279,4 +280,58 @@ func (c *cursor) Next() ([]byte, []byte, error) {
 	c.idx++
 	c.s.log(Op{Kind: "Next", Ret: k})
 	return []byte(k), []byte(v), nil
+}
+
+// Locked is a mutex-protected (thread-safe) wrapper used by the free-running
+// race-detector pass when statements share a store that is written to.
+type Locked struct {
+	mu sync.Mutex
+	s  *MemStore
+}
+
+func NewLocked(s *MemStore) *Locked { return &Locked{s: s} }
+
+func (l *Locked) Get(key []byte) ([]byte, error) {
+	l.mu.Lock()
+	defer l.mu.Unlock()
+	return l.s.Get(key)
+}
+func (l *Locked) Put(key, value []byte) error {
+	l.mu.Lock()
+	defer l.mu.Unlock()
+	return l.s.Put(key, value)
+}
+func (l *Locked) BatchPut(kvs []kvql.KVPair) error {
+	l.mu.Lock()
+	defer l.mu.Unlock()
+	return l.s.BatchPut(kvs)
+}
+func (l *Locked) Delete(key []byte) error {
+	l.mu.Lock()
+	defer l.mu.Unlock()
+	return l.s.Delete(key)
+}
+func (l *Locked) BatchDelete(keys [][]byte) error {
+	l.mu.Lock()
+	defer l.mu.Unlock()
+	return l.s.BatchDelete(keys)
+}
+
+// Cursor returns a private snapshot cursor (no shared state afterwards).
+func (l *Locked) Cursor() (kvql.Cursor, error) {
+	l.mu.Lock()
+	defer l.mu.Unlock()
+	c, err := l.s.Cursor()
+	if err != nil {
+		return nil, err
+	}
+	cc := c.(*cursor)
+	return &cursor{s: &MemStore{NoLog: true, FaultAt: -1}, keys: cc.keys, vals: cc.vals}, nil
+}
+
+// Canon of the wrapped store.
+func (l *Locked) Canon() string {
+	l.mu.Lock()
+	defer l.mu.Unlock()
+	return l.s.Canon()
 }
